@@ -166,6 +166,7 @@ func item(c cfg) *explore.Item {
 		tbl := fdb.AddTable(schema.ByName["items"])
 		tbl.Rows = [][]driver.Value{{int64(1), int64(1), "a", nil}, {int64(2), int64(2), "b", int64(5)}}
 		db := sqlgen.NewDB(fdb.Open(), schema)
+		x.Cleanup(fdb.Close)
 		ldb := livesql.NewLiveDB(db)
 		streamer := replication.NewTestStreamer()
 		bl := livesql.VerifNewBinlog(ldb, "testdb", streamer)
